@@ -213,7 +213,7 @@ func reportViolations(prop string, b *genBuild, corpus []CorpusEntry, vs []genVi
 		var rp map[string]any
 		json.Unmarshal(v.Replay, &rp)
 		rp["repo_tree_hash"] = b.TreeHash
-		dir := filepath.Join(verifDir, "replays", prop)
+		dir := filepath.Join(replayDir(), prop)
 		os.MkdirAll(dir, 0o755)
 		name := fmt.Sprintf("%v-%v-%s.json", rp["seed"], rp["run"], sanitize(v.Key))
 		path := filepath.Join(dir, name)
